@@ -142,11 +142,13 @@ fn run_k(case: &Value) -> Value {
             fw.push(m);
         }
         let mut bw = Vec::new();
+        let mut bwh = Vec::new();
         for r in 1..=nr as u64 {
-            // -1: no entry
-            let m: i64 = links.linked_to(rid(r)).map(|s| s.iter().fold(0i64, |m, l| m | 1 << (lidx(*l) - 1))).unwrap_or(-1);
-            bw.push(m);
+            let e = links.linked_to(rid(r));
+            bwh.push(e.is_some() as u8);
+            bw.push(e.map(|s| s.iter().fold(0u64, |m, l| m | 1 << (lidx(*l) - 1))).unwrap_or(0));
         }
+        o["bwh"] = json!(bwh);
         o["fw"] = json!(fw);
         o["bw"] = json!(bw);
         o["s"] = snapshots(a, nl, &readers, &agg_reader);
